@@ -758,8 +758,7 @@ func (g *G) refsNamed(name string) ref.Expr {
 // outside the current block, that a let may shadow here. The data-ref rules
 // attribute every use of the name inside this block to the new let, so the
 // shadowed binding is forced to get a use of its own at its own block level.
-// Params are only shadowed inside nested blocks (shadowing one in the
-// template's top-level block is the subject of a known C07 finding).
+// A param shadowed in the template's top-level block must already have been used.
 func (g *G) shadowCandidate(t Ty) string {
 	if len(g.marks) == 0 {
 		return ""
@@ -776,7 +775,12 @@ func (g *G) shadowCandidate(t Ty) string {
 			continue
 		}
 		if b.kind == "param" && len(g.marks) < 2 {
-			continue
+			// in the template's top-level block nothing after the let can reach the param any more:
+			// it must already have been used
+			if !b.used {
+				continue
+			}
+			return b.name
 		}
 		b.force = true
 		return b.name
